@@ -141,7 +141,6 @@ func H_C11_reuse_refs() {
 	vAssert("decoder-decode-same", e2 == nil && ok2 && eqZPair(probe, g2))
 }
 
-
 // H_C11_reuse: after any short history of earlier uses, a one-shot call gives exactly the bytes / value / error
 // a fresh instance gives; the probe value, the probe bytes and the (complete) maps are never written to.
 func H_C11_reuse() {
